@@ -23,7 +23,7 @@ ASSUMPTIONS = [
     "Kaiser reference: np.kaiser(L+1, pi*alpha(psll))[:-1] with the harness's own alpha(psll) cubic",
     "cuda backend through NUMBA_ENABLE_CUDASIM=1 (small N only)",
 ]
-DECIDING_COUNTERS = ["bins_compared", "single_bin_compared", "band_pairs", "custom_plan_results"]  # probe events: evidence only
+DECIDING_COUNTERS = ["bins_compared", "single_bin_compared", "band_pairs", "band_histories", "custom_plan_results"]  # probe events: evidence only
 MIN_NONTRIVIAL = {"quick": 120, "thorough": 1500}
 JOBS = {"quick": 10, "thorough": 16}
 
@@ -196,6 +196,37 @@ def one_analysis(rec, seedt, params, vary_from=None):
                                       f"band {band} ({kind}): D[{jj}] is not the full result's "
                                       f"D[{j}]")
                         break
+        # History: after a band-restricted analysis, further analyzers with the same options -
+        # another band, then no band - must still see the whole plan (anything a band analysis
+        # narrows must be its own copy).
+        if rng.random() < 0.6:
+            a2 = int(rng.integers(0, res.nf))
+            b2 = int(rng.integers(a2, res.nf))
+            band2 = (float(f[a2]), float(f[b2]))
+            sel2 = np.nonzero((f >= band2[0]) & (f <= band2[1]))[0]
+            try:
+                res_b2 = SpectrumAnalyzer(data, desc["fs"],
+                                          **api.analyzer_kwargs(dict(desc, band=list(band2)))).compute()
+                res_again = SpectrumAnalyzer(data, desc["fs"], **api.analyzer_kwargs(desc)).compute()
+            except Exception as e:
+                rec.violation("band-history:raises", f"after band {band}: band {band2} / no band: "
+                                                     f"{type(e).__name__}: {e}")
+                res_b2 = res_again = None
+            if res_b2 is not None:
+                rec.count("band_histories")
+                if res_b2.nf != sel2.size or np.any(
+                        np.abs(np.asarray(res_b2.f) - f[sel2]) > 1e-12 * np.abs(f[sel2])):
+                    rec.violation("band-history:second-band",
+                                  f"after an analysis restricted to {band}, a new analyzer with band "
+                                  f"{band2} returns {res_b2.nf} bins; the full analysis has "
+                                  f"{sel2.size} bins there")
+                if res_again.nf != res.nf or any(
+                        not np.array_equal(np.asarray(getattr(res_again, k)), np.asarray(getattr(res, k)))
+                        for k in ("f", "L", "K", "XX", "M2", "S2")):
+                    rec.violation("band-history:unrestricted-after-band",
+                                  f"after analyses restricted to {band} and {band2}, a new analyzer "
+                                  f"with the same options and no band returns {res_again.nf} bins "
+                                  f"(first unrestricted analysis: {res.nf}) or different values")
 
     # ---- single-bin requests ---------------------------------------------------
     N = desc["N"]
